@@ -175,6 +175,48 @@ def run_case(job):
             "nt": common.digest(job) if npages >= 2 else None, "cls": msgs[0].split(":")[0] if msgs else None}
 
 
+def run_helper(job):
+    """the CMake helper cminx_gen_rst() is a way to run CMinx, too: started in a build directory with an absolute input and a
+    relative output directory, everything it creates lies below <build>/<output>"""
+    import stat
+    import subprocess
+    kind = job
+    box = fsbox.Box("c18h")
+    msgs = []
+    try:
+        box.build({"proj/cmake/a.cmake": fsbox.cmake_content("a.cmake"), "proj/cmake/sub/b.cmake": fsbox.cmake_content("b.cmake")})
+        os.makedirs(box.path("work", "build"))
+        wrapper = box.path("cminx-wrapper.sh")
+        code = ("import sys; sys.path.insert(0, %r); import warnings; warnings.filterwarnings('ignore'); import cminx; "
+                "cminx.main(sys.argv[1:])") % common.REPO_SRC
+        with open(wrapper, "w") as f:
+            f.write(f"#!/bin/sh\nexec {common.PYTHON} -c \"{code}\" \"$@\"\n")
+        os.chmod(wrapper, os.stat(wrapper).st_mode | stat.S_IEXEC)
+        inp = box.path("work", "proj", "cmake") if kind == "dir" else box.path("work", "proj", "cmake", "a.cmake")
+        with open(box.path("driver.cmake"), "w") as f:
+            f.write(f'set(CMINX_EXECUTABLE "{wrapper}")\ninclude("{os.path.join(common.REPO_ROOT, "cmake", "cminx.cmake")}")\n'
+                    f'cminx_gen_rst("{inp}" "docs/api")\n')
+        env = dict(os.environ, CMINXDIR=box.path("cfg"), HOME=box.path("home"), XDG_CONFIG_HOME=box.path("home", ".config"),
+                   PWD=box.path("work", "build"))
+        before = box.snapshot()
+        p = subprocess.run(["cmake", "-P", box.path("driver.cmake")], cwd=box.path("work", "build"), env=env, capture_output=True, text=True)
+        after = box.snapshot()
+        ch = diff(before, after)
+        ok_prefix = "work/build/docs"
+        outside = sorted(k for k in ch if not (k == ok_prefix or k.startswith(ok_prefix + "/")))
+        if p.returncode != 0:
+            msgs.append(f"error: cmake failed: {p.stderr[-200:]}")
+        if outside:
+            msgs.append(f"outside: cminx_gen_rst(<absolute input> docs/api) started in build/ created or changed {outside[:5]}")
+        if not any(k.endswith("a.rst") and k.startswith(ok_prefix) for k in ch):
+            msgs.append("outside: nothing was written below build/docs/api")
+    finally:
+        box.cleanup()
+    msgs = [m.replace(box.root, "<box>") for m in msgs]
+    return {"viol": msgs[:3], "obs": common.digest([job, msgs]), "n": 1, "nt": common.digest(job), "cls": msgs[0].split(":")[0] + " helper" if msgs else None,
+            "case": {"helper": kind}}
+
+
 def run(ctx):
     quick = ctx.tier == "quick"
     shapes = dirmodel.shapes(3 if quick else 4, 3)
@@ -194,6 +236,7 @@ def run(ctx):
             jobs.append(("prefixdirs", None, None, recursive, outmode, "default"))
     ctx.cov["bounds"] = {"tree_shapes": len(shapes), "output_modes": OUTMODES, "settings": list(SETTINGS), "twin_runs": len(jobs)}
     ctx.sweep(run_case, jobs, space="(tree|file) x output mode x settings, twin runs", selftest=3)
+    ctx.sweep(run_helper, ["dir", "file"], space="cminx_gen_rst() from a build directory", selftest=0, chunk=1)
     ctx.assumptions += ["inputs trigger no diagnostics", "the order in which directories are printed is not fixed by the statement; "
                         "only the order of files within a directory is checked",
                         "a stale page with the name of a generated page is related and may be overwritten"]
@@ -201,4 +244,6 @@ def run(ctx):
 
 
 def replay(case):
+    if isinstance(case, dict) and "helper" in case:
+        return run_helper(case["helper"])["viol"]
     return run_case(tuple(case))["viol"]
